@@ -370,6 +370,137 @@ def rule_g5(ctx, F):
                 "transitive — two states that conflict with each other and are both compatible with the representative stay merged" % d)
 
 
+def rule_g6(ctx, F):
+    """G6: merging does not reserve a word where it was not reserved.  merge_compatible_states gives the merged state the
+    *union* of its members' reserved words (minus its own tokens); a word reserved in one member only would then no longer
+    be lexed as the word token in the other member's context, and the optimised parser rejects input the unoptimised one
+    accepts.  So, as long as the merge unions the sets, states_conflict must compare them: somewhere in its call tree the
+    words of one state's `reserved_words` are tested against the other state's `reserved_words`, in both directions."""
+    mg = find_fn(ctx, F, "Minimizer::merge_compatible_states", "G6")
+    sc = find_fn(ctx, F, "Minimizer::states_conflict", "G6")
+    if not mg or not sc:
+        return
+    key = "states_conflict:reserved-words-compared"
+    fam_m = [mg] + [f for f in F.fn_list if f.name.startswith(mg.name + "::{closure")]
+    union = [fn.loc(pt) for fn in fam_m for pt, c in fn.calls() if "TokenSet::insert_all" in (c.get("fn") or "") and c.get("a") and "reserved_words" in rsrules.deep_text(fn, c["a"][0], user=True)]
+    if not union:
+        ctx.ok("G6", key, "merge_compatible_states does not union the members' reserved words (nothing to compare)", nontrivial=False)
+        return
+    # the call tree of states_conflict inside the minimiser
+    reach, work = {}, [sc]
+    while work:
+        f = work.pop()
+        if f.name in reach:
+            continue
+        reach[f.name] = f
+        for pt, c in f.calls():
+            g = c.get("fn") or ""
+            if "Minimizer::" in g:
+                for h in F.fn_list:
+                    if h.name == g or h.name.startswith(g + "::{closure"):
+                        work.append(h)
+        for h in F.fn_list:
+            if h.name.startswith(f.name + "::{closure"):
+                work.append(h)
+
+    def base(fn, e):
+        t = rsrules.deep_text(fn, e, user=True)
+        return t.split(".reserved_words")[0].lstrip("&*(") if ".reserved_words" in t else None
+
+    hosts = []
+    for name, f in reach.items():
+        if "::{closure" in name:
+            continue
+        fam = [f] + [h for n, h in reach.items() if n.startswith(name + "::{closure")]
+        walked, tested = set(), set()
+        for h in fam:
+            for pt, c in h.calls():
+                g = c.get("fn") or ""
+                args = c.get("a") or []
+                bs = [b for b in (base(h, a) for a in args) if b is not None]
+                if not bs:
+                    continue
+                if "TokenSet" in g and any(k in g for k in ("::iter", "::into_iter")) or "IntoIterator" in g:
+                    walked.add((h.name, bs[0]))
+                elif "TokenSet::contains" in g:
+                    tested.add((h.name, bs[0]))
+                elif ("PartialEq" in g or "is_subset" in g or "is_superset" in g) and len(bs) == 2 and bs[0] != bs[1]:
+                    hosts.append((f, True))
+        if any(w != t for w in walked for t in tested):
+            hosts.append((f, False))
+    ctx.analysed["G6_call_tree"] = sorted(reach)
+    if not hosts:
+        ctx.bad("G6", key, "merge_compatible_states unions the members' reserved words (%s) but nothing in states_conflict's call tree (%d functions) tests the words of one state's reserved set against the other's: "
+                "two same-core states that differ only in the reserved-word set of their context are merged, and a word reserved in one context becomes reserved in both — "
+                "the optimised parser rejects input the unoptimised parser accepts" % (union[0], len(reach)), {"function": sc.name, "union": union})
+        return
+    f, symmetric = hosts[0]
+    if symmetric or f is sc:
+        ctx.ok("G6", key, "%s compares the two states' reserved words" % f.name.split("::")[-1])
+        return
+    # a one-directional helper is called both ways round
+    pairs = set()
+    for pt, c in sc.calls():
+        if (c.get("fn") or "") == f.name:
+            pairs.add(tuple(rsrules.trace_root(sc, a) for a in (c.get("a") or [])[-2:]))
+    if any((b, a) in pairs and a != b for a, b in pairs):
+        ctx.ok("G6", key, "states_conflict calls %s both ways round (%s)" % (f.name.split("::")[-1], sorted(pairs)))
+    else:
+        ctx.bad("G6", key, "states_conflict compares the reserved words in one direction only (%s called with %s): a word that only the other state reserves still leaks into this one" % (f.name.split("::")[-1], sorted(pairs)))
+
+
+def rule_g7(ctx, F):
+    """G7: FIRST and LAST sets are each computed by a fresh walk.  ParseItemSetBuilder::new computes, per non-terminal, its
+    FIRST set and then its LAST set with one shared work list and one shared visited set; each walk starts by pushing the
+    non-terminal itself.  The visited set is emptied between the last insertion of the previous walk and that push —
+    otherwise the LAST walk skips every non-terminal the FIRST walk visited, LAST sets come out too small, the token
+    conflict map under-reports which tokens can follow which, and the minimiser merges states whose look-aheads conflict
+    lexically (the optimised parser then rejects input the unoptimised one accepts)."""
+    from rsrules import deep_text
+    fn = find_fn(ctx, F, "ParseItemSetBuilder::new", "G7")
+    if not fn:
+        return
+    key = "ParseItemSetBuilder::new:visited-set-fresh-per-walk"
+    ins, clr, seeds = {}, {}, []
+    for pt, c in fn.calls():
+        g = c.get("fn") or ""
+        a = c.get("a") or []
+        if not a:
+            continue
+        root = rsrules.trace_root(fn, a[0])
+        if "HashSet" in g and g.endswith("::insert") and root:
+            ins.setdefault(root, set()).add(pt)
+        elif "HashSet" in g and g.endswith("::clear") and root:
+            clr.setdefault(root, set()).add(pt)
+        elif "Vec" in g and g.endswith("::push") and len(a) > 1 and "Symbol::non_terminal(" in deep_text(fn, a[1], user=True):
+            seeds.append(pt)
+    visited = [r for r in ins if not str(r).startswith("_")]
+    ctx.floor("walks seeded with the non-terminal itself", len(seeds), 2)
+    if not visited:
+        ctx.bad("G7", key, "the visited set of the FIRST/LAST walks was not found in ParseItemSetBuilder::new")
+        return
+    seedset = set(seeds)
+    for r in visited:
+        i_pts, c_pts = ins[r], clr.get(r, set())
+
+        class Fresh(Monitor):
+            def elem(self, m, pt, e, s):
+                if pt in c_pts:
+                    return False
+                if pt in seedset and m:
+                    return Viol("a walk is started (its root pushed) while `%s` still holds the non-terminals visited by the previous walk" % r, pt)
+                if pt in i_pts:
+                    return True
+                return m
+        sr = Search(fn, Fresh(), budget=3000000)
+        v = sr.run(False)
+        if v is None:
+            ctx.ok("G7", key, "every walk starts with `%s` empty: it is cleared between its last insertion and the push of the next walk's root (%d walks, %d states)" % (r, len(seeds), sr.states))
+        else:
+            ctx.bad("G7", key, "ParseItemSetBuilder::new: %s (%s): the second walk skips what the first one visited, so LAST sets are too small, token conflicts are under-reported and "
+                    "conflicting states are merged" % (v.msg, fn.loc(v.pt)), {"path": sr.render_path(v.path)[-6:]})
+
+
 def rule_u1(ctx, F):
     """U1: a parse state's reductions are short-circuited ("unit reduction") only if every action in
     it is the same single-child reduce (production 0) of a symbol that leaves no trace in the tree —
@@ -677,6 +808,8 @@ def run(ctx):
     rule_g3(ctx, F)
     rule_g4(ctx, F)
     rule_g5(ctx, F)
+    rule_g6(ctx, F)
+    rule_g7(ctx, F)
     return ctx.finish(
         "Determinism scan and merge-licence gates over rustc MIR of tree-sitter-generate: no iteration over RandomState-hashed containers, no clock/thread/pid/env/random source, no pointer→integer casts; "
         "states_conflict vets every entry it consumes, token_conflicts/entries_conflict say `no conflict` only after all their tests, merging only under OptLevel::MergeStates. "
